@@ -11,6 +11,8 @@ from . import world
 from .codec import enc, fhex, h64
 from .ops import containers_for
 
+ODD_TIMES = [0.0, -0.5]
+COMMON_NAMES = ["gamma", "geometry", "rho0", "u0", "M0", "D", "L", "Nsum", "eblast", "omega", "t_f", "Gamma", "xnodes"]
 ALLOC_PATTERNS = [0.0, 1.0, 123.456, float("nan"), 1e300, -1.0]
 FAULT_KINDS = ["dep", "abort", "devnull", "nofile", "alias", "lifetime", "alloc"]
 N_CHOICES = [1, 2, 3, 5, 7, 12, 40]
@@ -81,7 +83,7 @@ class Gen(object):
         ps = fam.pool[pi]
         kw = dict(kw)
         if bad == "unknown":
-            kw["zzz_unknown_parameter"] = 1.0
+            kw[rng.choice(unknown_names(cls))] = 1.0
         oid = "S%d" % (len(self.objs) + 1)
         op = {"op": "new", "c": client, "obj": oid, "cls": qual, "kw": enc(kw), "fam": fam.name, "pi": pi}
         if ps.eos is not None:
@@ -145,7 +147,35 @@ class Gen(object):
         if v is None:
             v = 0 if rng.random() < 0.4 else rng.randrange(8)
         pts = ps.pts.gen(n, v)
-        t = ps.times[0] if rng.random() < 0.6 else rng.choice(ps.times)
+        layout = ps.pts.layout
+        axis = 1 if layout == "2N" else 0
+        if hasattr(ps.pts, "special") and rng.random() < self.cfg.get("special_pts", 0.25):
+            # unusual but legal points: region ends, simple fractions, the origin -- some or all of the request
+            k_all = pts.shape[axis]
+            which = list(range(k_all)) if rng.random() < 0.35 else rng.sample(range(k_all), rng.randint(1, k_all))
+            for j in which:
+                sp = ps.pts.special(rng)
+                if sp is None:
+                    continue
+                if layout == "2N":
+                    pts[:, j] = sp
+                else:
+                    pts[j] = sp
+        if fam.gran != "mesh" and not isinstance(ps.pts, T.PLin) and rng.random() < self.cfg.get("nonfinite_pts", 0.015):
+            j = rng.randrange(pts.shape[axis])
+            bad = rng.choice([float("nan"), float("inf")])
+            if layout == "2N":
+                pts[rng.randrange(2), j] = bad
+            elif pts.ndim == 1:
+                pts[j] = bad
+            else:
+                pts[j, rng.randrange(pts.shape[1])] = bad
+        times = list(ps.times)
+        if len(times) == 1 and times[0] > 0:
+            times.append(times[0] * 0.5)      # every parameter set is exercised at two times at least
+        t = times[0] if rng.random() < 0.6 else rng.choice(times)
+        if rng.random() < self.cfg.get("odd_time", 0.04):
+            t = rng.choice(ODD_TIMES)     # branch-selecting times (t <= 0): whatever happens must happen the same when fresh
         return pts, fhex(t), ps.pts.layout
 
     def call_op(self, client, st, pts, thex, layout, cont=None, buf=None):
@@ -475,6 +505,28 @@ STREAM_PLANS = [
 PROBE_QUAL = "verif.probe.ProbeSolver"
 
 
+def unknown_names(cls):
+    """Names that are NOT parameters of cls (sorted, deterministic): junk, public data attributes of the class that are
+    not parameters (e.g. the fixed 'geometry' of a wrapper), parameter names common elsewhere, near-miss spellings."""
+    params = set(cls.parameters)
+    out = ["zzz_unknown_parameter"]
+    for a in sorted(dir(cls)):
+        if a.startswith("_") or a in params or a == "verbose":
+            continue
+        try:
+            v = getattr(cls, a)
+        except Exception:
+            continue
+        if not callable(v):
+            out.append(a)
+    out += [n for n in COMMON_NAMES if n not in params and n not in out]
+    for p in sorted(params):
+        for cand in (p.upper(), p.lower(), p + "_", p.capitalize()):
+            if cand not in params and cand not in out and cand != "verbose":
+                out.append(cand)
+    return out
+
+
 def missing_params(cls):
     return [p for p in cls.parameters if not hasattr(cls, p)]
 
@@ -507,7 +559,7 @@ def conformance(g, client, qual, rng, tier):
         pi, kw = usable[0]
         kw = {k: v for k, v in kw.items() if k not in miss}
         oid = "S%d" % (len(g.objs) + 1)
-        op = {"op": "new", "c": client, "obj": oid, "cls": qual, "kw": enc(kw), "fam": fam.name, "pi": pi, "expect": "ValueError"}
+        op = {"op": "new", "c": client, "obj": oid, "cls": qual, "kw": enc(kw), "fam": fam.name, "pi": pi, "expect": "ValueError", "missing": miss}
         g.ops.append(op)
         dead = ObjState(oid, qual, fam, pi, op, client)
         dead.alive = False
@@ -520,6 +572,10 @@ def conformance(g, client, qual, rng, tier):
     fixed_n = getattr(fam.pool[st.pi].pts, "fixed_n", False)
     n = rng.choice([1, 2, 3, 7, 40])
     pts, thex, layout = g.request_points(st, n=n)
+    if fam.gran not in ("mader", "mesh") and rng.random() < 0.7:
+        order = list(range(pts.shape[1 if layout == "2N" else 0]))
+        rng.shuffle(order)      # "any ordering of points"
+        pts = world.np.take(pts, order, axis=1 if layout == "2N" else 0)
     conts = list(containers_for(layout))
     if pts.ndim < 2:
         conts = [c for c in conts if c != "fortran"]
@@ -555,6 +611,10 @@ def conformance(g, client, qual, rng, tier):
         n2 = rng.choice([x for x in [1, 2, 3, 7, 40] if x != n])
         pts2, thex2, layout2 = g.request_points(st, n=n2)
         g.call_op(client, st, pts2, thex2, layout2, cont="nd")
+        yield
+    if rng.random() < 0.6:
+        # a branch-selecting time (t <= 0): the call may raise, but whatever it returns must honour the contract
+        g.call_op(client, st, pts, fhex(rng.choice(ODD_TIMES)), layout, cont=rng.choice(["nd", "list"]))
         yield
 
 
@@ -609,3 +669,44 @@ def make_c05_run(seed, tier, index):
     return {"seed": seed, "tier": tier, "index": index, "prop": "C05", "kind": "swarm",
             "config": {k: v for k, v in cfg.items() if k != "n_choices"}, "families": [f.name for f in chosen],
             "visits": visits, "run": run, "ops": g.ops, "intents": intents, "faults": []}
+
+
+def make_c05_sweep(seed, tier, k):
+    """C05 cornerstone k: one class, every candidate unknown name (and every default-less parameter left out),
+    then a good constructor and one plain request -- a short, systematic session for the constructor clause."""
+    world.load()
+    census = c05_census(tier) + ([PROBE_QUAL] if PROBE_QUAL in world.CENSUS else [])
+    qual = census[k % len(census)]
+    cls = world.CENSUS[qual]
+    fam, usable = T.pool_for(qual, cls)
+    rng = random.Random(h64(seed, tier, "c05-sweep", k))
+    cfg = dict(BASE_CFG, n_choices=[3, 7], bb_setters=0.0, plain_container=1.0, refill=0.0)
+    g = Gen(rng, [fam], cfg)
+    if usable:
+        pi, kw0 = usable[0]
+        for name in unknown_names(cls):
+            st = g.new_op(100, fam, qual=qual, pi=pi, bad="unknown")
+            if st is None:
+                break
+            op = g.ops[-1]
+            kw = dict(kw0)
+            kw[name] = 1.0
+            op["kw"] = enc(kw)
+            op["expect"] = "ValueError"
+        for m in missing_params(cls):
+            if fam.name == "blake":
+                break
+            kw = {k2: v for k2, v in kw0.items() if k2 != m}
+            oid = "S%d" % (len(g.objs) + 1)
+            op = {"op": "new", "c": 100, "obj": oid, "cls": qual, "kw": enc(kw), "fam": fam.name, "pi": pi,
+                  "expect": "ValueError", "missing": [m]}
+            g.ops.append(op)
+            dead = ObjState(oid, qual, fam, pi, op, 100)
+            dead.alive = False
+            g.objs.append(dead)
+        st = g.new_op(100, fam, qual=qual, pi=pi)
+        if st is not None:
+            pts, thex, layout = g.request_points(st)
+            g.call_op(100, st, pts, thex, layout, cont="nd")
+    return {"seed": seed, "tier": tier, "index": k, "prop": "C05", "kind": "cornerstone", "config": {"class": qual},
+            "families": [fam.name] if fam else [], "visits": [qual], "run": {}, "ops": g.ops, "intents": [], "faults": []}
